@@ -163,7 +163,8 @@ def _eligible(fn: ast.FunctionDef) -> bool:
     if any(isinstance(x, (ast.Yield, ast.YieldFrom, ast.Await, ast.Global, ast.Nonlocal)) for x in body_nodes):
         return False
     # recursion
-    if any(isinstance(x, ast.Call) and (getattr(x.func, "id", None) == fn.name or getattr(x.func, "attr", None) == fn.name) for x in body_nodes):
+    if any(isinstance(x, ast.Call) and (getattr(x.func, "id", None) == fn.name or (getattr(x.func, "attr", None) == fn.name and isinstance(
+            x.func.value, ast.Name) and x.func.value.id in ("self", "cls"))) for x in body_nodes):
         return False
     return True
 
